@@ -8,6 +8,7 @@ import (
 	"time"
 
 	"perun.network/go-perun/channel"
+	"perun.network/go-perun/client"
 
 	"verif/sim/kernel"
 	"verif/sim/world"
@@ -22,6 +23,7 @@ func genC06(r *kernel.Rand, tier string) *kernel.Scenario {
 	c["fifo"] = int64(r.Intn(2))
 	c["async_bus"] = int64(r.Intn(2))
 	c["bus_max_us"] = int64([]int{100, 400, 2000}[r.Intn(3)])
+	c["bus_ack_max_us"] = int64([]int{0, 0, 100, 3000}[r.Intn(4)])
 	c["react_max_us"] = int64([]int{50, 500, 3000}[r.Intn(3)])
 	c["accept_pct"] = int64([]int{100, 80, 50}[r.Intn(3)])
 	nch := 1 + r.Weighted([]int{5, 3, 2})
@@ -46,6 +48,13 @@ func genC06(r *kernel.Rand, tier string) *kernel.Scenario {
 	}
 	c["yield_pct"] = int64([]int{0, 30, 100}[r.Intn(3)])
 	c["long_yields"] = int64(r.Intn(2))
+	if (mode == 0 || mode == 1) && nch > 1 && r.Bool(0.4) {
+		// eager: the channels are opened concurrently and a proposer issues updates
+		// as soon as its own ProposeChannel has returned, without waiting for the
+		// responder's Accept to return (first updates can overtake the
+		// responder's opening)
+		c["eager_open"] = 1
+	}
 	for k := 0; k < nch; k++ {
 		sc.Steps = append(sc.Steps, kernel.St("open", "from", r.Intn(2), "r", int64(r.Uint64()>>2), "app", r.Intn(2), "assets", 1+r.Intn(2)))
 	}
@@ -110,23 +119,33 @@ func execC06(t *testing.T, sc *kernel.Scenario, trace bool) *kernel.Result {
 			st := &sc.Steps[i]
 			switch st.Op {
 			case "open":
-				p.open(i, int(st.Int("from"))&1, st)
+				if sc.Cfg("eager_open", 0) == 1 {
+					p.eager = true
+					p.wg.Add(1)
+					start := s.Delay(fmt.Sprintf("driver:open-start:%d", i), 0, 200*time.Microsecond)
+					go func() { defer p.wg.Done(); time.Sleep(start); p.open(i, int(st.Int("from"))&1, st) }()
+				} else {
+					p.open(i, int(st.Int("from"))&1, st)
+				}
 			case "crash":
 				p.crashRestart(i, st, hookEnable)
 			case "pay":
 				k := int(st.Int("ch"))
-				p.mu.Lock()
-				ok := k < len(p.chans)
-				p.mu.Unlock()
-				if !ok {
-					continue
-				}
 				side := int(st.Int("from")) & 1
-				p.mu.Lock()
-				ch := p.chans[k][side]
-				p.mu.Unlock()
+				var ch *client.Channel
+				for try := 0; ; try++ {
+					p.mu.Lock()
+					if k < len(p.chans) {
+						ch = p.chans[k][side]
+					}
+					p.mu.Unlock()
+					if ch != nil || !p.eager || try > 3000 {
+						break
+					}
+					time.Sleep(20 * time.Microsecond) // eager: the opening (or this side's controller) is still under way
+				}
 				if ch == nil {
-					continue // lost in a crash (never restored)
+					continue // never opened, or lost in a crash (never restored)
 				}
 				to := time.Duration(st.Int("timeout_ms")) * time.Millisecond
 				if to <= 0 {
@@ -289,6 +308,10 @@ func checkC06(p *pair, sc *kernel.Scenario) {
 		}
 		// both sides agree at quiescence and are ready for further updates
 		a, b := p.chans[k][0], p.chans[k][1]
+		if a == nil || b == nil {
+			s.Fail("C06.responder-without-channel", "ProposeChannel returned a funded channel %s but the responder never obtained its controller", s.ChanName(id))
+			return
+		}
 		sa, sb := a.State(), b.State()
 		if sa.Version != sb.Version || sa.Equal(sb) != nil {
 			s.Fail("C06.diverged", "at quiescence %s is at v%d on A and v%d on B", s.ChanName(id), sa.Version, sb.Version)
